@@ -57,7 +57,8 @@ func GetJsonDataType(t dsl.Type) JsonDataType {
 		case dsl.ComplexFloat32, dsl.ComplexFloat64:
 			return JsonArray
 		case dsl.Date, dsl.Time, dsl.DateTime:
-			return JsonNumber
+			// written as strings; they used to be classified as numbers, so they keep conflicting with numbers too
+			return JsonNumber | JsonString
 		default:
 			panic(fmt.Sprintf("unexpected primitive type %s", td))
 		}
